@@ -39,8 +39,18 @@ pub fn fire_event(ev: ExtEvent) {
                 }),
                 PlanEventKind::Signal => {
                     let wakers = with(|rt| {
+                        if rt.plan.knobs.sigterm && rt.signal.registered && !rt.signal.handles_term {
+                            // the installed handler does not cover SIGTERM: the default action ends
+                            // the process at once; whatever it had spawned keeps running (the short
+                            // window before any handler is installed is not modelled, for either signal)
+                            rt.ev("signal", "SIGTERM");
+                            rt.ev("killed-by-signal", "SIGTERM (no handler installed for it)");
+                            rt.write_footer("killed-by-signal");
+                            rt.trace.flush();
+                            unsafe { libc::_exit(143) }
+                        }
                         rt.signal.fired = true;
-                        rt.ev("signal", "");
+                        rt.ev("signal", if rt.plan.knobs.sigterm { "SIGTERM" } else { "" });
                         if rt.plan.knobs.freeze_on_signal {
                             rt.procs.frozen = true;
                         }
